@@ -85,7 +85,7 @@ def worker(wid, jobs, group_checks):
                     rec["status"] = "survived"
                     rec["checks"] = {}
                     for cid in group_checks[group]:
-                        rc, out = sh([os.path.join(ROOT, "check"), cid, "quick"], cwd=ROOT, timeout=180, env=env)
+                        rc, out = sh([os.path.join(ROOT, "check"), cid, "quick"], cwd=ROOT, timeout=300, env=env)
                         rec["checks"][cid] = rc
                         if rc == 1:
                             rec["status"] = "killed"
